@@ -2,6 +2,9 @@
   C15 — header rules: case-insensitive names, trimmed values, tolerant vs fatal faults.
 -/
 import MicroHttp.Headers
+import MicroHttp.Proofs.HeaderLemmas
+import MicroHttp.Proofs.Utf8Lemmas
+import MicroHttp.Proofs.TrimLemmas
 namespace MicroHttp.C15
 open MicroHttp
 
@@ -14,33 +17,33 @@ def noColon (k : List Byte) : Bool := !k.contains COLON
     case are recognised alike. -/
 theorem name_case_insensitive (n n' : List Byte) (h : asciiLower n = asciiLower n') :
     Header.tryFrom n = Header.tryFrom n' := by
-  sorry
+  exact Utf8Lemmas.name_case_insensitive n n' h
 
 /-- every canonical name is recognised, in any letter case -/
 theorem name_recognised (hd : Header) (n : List Byte) (h : asciiLower n = asciiLower hd.raw) :
     Header.tryFrom n = some hd := by
-  sorry
+  exact Utf8Lemmas.name_recognised hd n h
 
 /-- SP / HTAB padding around a name or value is ignored by `trim`. -/
 theorem trim_padding (pre post x : List Byte)
     (hpre : ∀ b ∈ pre, b = SP ∨ b = 0x09) (hpost : ∀ b ∈ post, b = SP ∨ b = 0x09) :
     trim (pre ++ x ++ post) = trim x := by
-  sorry
+  exact TrimLemmas.trim_padding pre post x hpre hpost
 
 /-- The split of a line at its first colon. -/
 theorem splitOnce_mkLine (k v : List Byte) (hk : noColon k = true) :
     splitOnce COLON (mkLine k v) = (k, some v) := by
-  sorry
+  exact HeaderLemmas.splitOnce_mkLine k v hk
 
 /-- A line without a colon is fatal (`InvalidFormat` carrying the line). -/
 theorem no_colon_fatal (h : Headers) (line : List Byte) (hu : isUtf8 line = true) (hc : noColon line = true) :
     h.applyLine line = .error (.headerError (.invalidFormat line)) := by
-  sorry
+  exact HeaderLemmas.no_colon_fatal h line hu hc
 
 /-- Non-UTF-8 bytes anywhere in the line are fatal. -/
 theorem non_utf8_fatal (h : Headers) (line : List Byte) (hu : isUtf8 line = false) :
     ∃ e, h.applyLine line = .error (.headerError (.invalidUtf8 e)) := by
-  sorry
+  exact HeaderLemmas.non_utf8_fatal h line hu
 
 /-- Content-Length: the value must be an unsigned 32-bit decimal after trimming; then it replaces
     the previous value (so the last acceptable occurrence wins); otherwise the line is fatal. -/
@@ -50,7 +53,7 @@ theorem content_length_rule (h : Headers) (k v : List Byte) (hu : isUtf8 (mkLine
       match parseU32 (trim v) with
       | some n => .ok { h with contentLength := n }
       | none => .error (.headerError (.invalidValue k v)) := by
-  sorry
+  exact HeaderLemmas.content_length_rule h _ k v hu (HeaderLemmas.splitOnce_mkLine k v hk) hn
 
 /-- Accept: a supported media type replaces the previous one; anything else is ignored. -/
 theorem accept_rule (h : Headers) (k v : List Byte) (hu : isUtf8 (mkLine k v) = true)
@@ -59,13 +62,13 @@ theorem accept_rule (h : Headers) (k v : List Byte) (hu : isUtf8 (mkLine k v) = 
       match MediaType.tryFrom (trim v) with
       | some m => .ok { h with accept := m }
       | none => .ok h := by
-  sorry
+  exact HeaderLemmas.accept_rule h _ k v hu (HeaderLemmas.splitOnce_mkLine k v hk) hn
 
 /-- Content-Type and Server never change anything and never reject. -/
 theorem content_type_server_rule (h : Headers) (k v : List Byte) (hu : isUtf8 (mkLine k v) = true)
     (hk : noColon k = true) (hn : Header.tryFrom k = some .contentType ∨ Header.tryFrom k = some .server) :
     h.applyLine (mkLine k v) = .ok h := by
-  sorry
+  exact HeaderLemmas.content_type_server_rule h _ k v hu (HeaderLemmas.splitOnce_mkLine k v hk) hn
 
 /-- Expect: the flag is set by `100-continue` (any occurrence), other values are ignored. -/
 theorem expect_rule (h : Headers) (k v : List Byte) (hu : isUtf8 (mkLine k v) = true)
@@ -73,14 +76,14 @@ theorem expect_rule (h : Headers) (k v : List Byte) (hu : isUtf8 (mkLine k v) = 
     h.applyLine (mkLine k v) =
       .ok (if trim v = [0x31, 0x30, 0x30, 0x2D, 0x63, 0x6F, 0x6E, 0x74, 0x69, 0x6E, 0x75, 0x65]
            then { h with expect := true } else h) := by
-  sorry
+  exact HeaderLemmas.expect_rule h _ k v hu (HeaderLemmas.splitOnce_mkLine k v hk) hn
 
 /-- Transfer-Encoding: `chunked` sets the flag (any occurrence), other values are ignored. -/
 theorem transfer_encoding_rule (h : Headers) (k v : List Byte) (hu : isUtf8 (mkLine k v) = true)
     (hk : noColon k = true) (hn : Header.tryFrom k = some .transferEncoding) :
     h.applyLine (mkLine k v) =
       .ok (if trim v = [0x63, 0x68, 0x75, 0x6E, 0x6B, 0x65, 0x64] then { h with chunked := true } else h) := by
-  sorry
+  exact HeaderLemmas.transfer_encoding_rule h _ k v hu (HeaderLemmas.splitOnce_mkLine k v hk) hn
 
 /-- Accept-Encoding never changes the headers; it is fatal exactly when `Encoding::try_from` of
     the trimmed value fails. -/
@@ -90,7 +93,7 @@ theorem accept_encoding_rule (h : Headers) (k v : List Byte) (hu : isUtf8 (mkLin
       match Encoding.tryFrom (trim v) with
       | .ok _ => .ok h
       | .error e => .error e := by
-  sorry
+  exact HeaderLemmas.accept_encoding_rule h _ k v hu (HeaderLemmas.splitOnce_mkLine k v hk) hn
 
 /-- "identity;q=0" -/
 def IDENTITY_Q0 : List Byte := [0x69, 0x64, 0x65, 0x6E, 0x74, 0x69, 0x74, 0x79, 0x3B, 0x71, 0x3D, 0x30]
@@ -106,21 +109,21 @@ theorem encoding_rejects_iff (bs : List Byte) :
       (bs = [] ∨ isUtf8 bs = false ∨
         ∃ item ∈ splitOn COMMA bs, trim item = IDENTITY_Q0 ∨
           (trim item = STAR_Q0 ∧ containsSub IDENTITY bs = false)) := by
-  sorry
+  exact HeaderLemmas.encoding_rejects_iff bs
 
 /-- Every other field is kept as a custom entry with trimmed name and value; the newest value of a
     name replaces the older one. -/
 theorem custom_rule (h : Headers) (k v : List Byte) (hu : isUtf8 (mkLine k v) = true)
     (hk : noColon k = true) (hn : Header.tryFrom k = none) :
     h.applyLine (mkLine k v) = .ok { h with custom := insertCustom h.custom (trim k) (trim v) } := by
-  sorry
+  exact HeaderLemmas.custom_rule h _ k v hu (HeaderLemmas.splitOnce_mkLine k v hk) hn
 
 def lookupCustom (m : List (List Byte × List Byte)) (k : List Byte) : Option (List Byte) :=
   (m.find? (fun e => e.1 = k)).map (·.2)
 
 theorem insertCustom_lookup (m : List (List Byte × List Byte)) (k v k' : List Byte) :
     lookupCustom (insertCustom m k v) k' = if k' = k then some v else lookupCustom m k' := by
-  sorry
+  exact HeaderLemmas.insertCustom_lookup m k v k'
 
 /-- Hence a line is fatal if and only if it has no colon, is not UTF-8, is a Content-Length that
     is not a u32 decimal, or an Accept-Encoding that `Encoding::try_from` rejects. -/
@@ -130,14 +133,14 @@ theorem fatal_iff (h : Headers) (line : List Byte) :
         ∃ k v, splitOnce COLON line = (k, some v) ∧
           ((Header.tryFrom k = some .contentLength ∧ parseU32 (trim v) = none) ∨
            (Header.tryFrom k = some .acceptEncoding ∧ ∃ e, Encoding.tryFrom (trim v) = .error e))) := by
-  sorry
+  exact HeaderLemmas.fatal_iff h line
 
 /-- Parsing a header block = folding its CRLF-separated lines one by one with the same rule,
     stopping at the first empty line; a block that is not UTF-8 is rejected as a whole. -/
 theorem block_eq_lines (bs : List Byte) :
     Headers.tryFrom bs =
       if isUtf8 bs then Headers.foldLines Headers.default (splitCRLF bs) else .error .invalidRequest := by
-  sorry
+  exact HeaderLemmas.block_eq_lines bs
 
 /-- the Content-Length a single line sets, if it is an acceptable Content-Length line -/
 def clOf (line : List Byte) : Option Nat :=
@@ -150,7 +153,7 @@ def clOf (line : List Byte) : Option Nat :=
 theorem content_length_last_wins (h0 h : Headers) (ls : List (List Byte))
     (hne : ∀ l ∈ ls, l ≠ []) (hf : Headers.foldLines h0 ls = .ok h) :
     h.contentLength = ((ls.reverse.findSome? clOf).getD h0.contentLength) := by
-  sorry
+  exact HeaderLemmas.content_length_last_wins h0 h ls hne hf
 
 /-- a line asks for 100-continue -/
 def isExpectLine (line : List Byte) : Bool :=
@@ -163,7 +166,7 @@ def isExpectLine (line : List Byte) : Bool :=
 theorem expect_any (h0 h : Headers) (ls : List (List Byte))
     (hne : ∀ l ∈ ls, l ≠ []) (hf : Headers.foldLines h0 ls = .ok h) :
     h.expect = (h0.expect || ls.any isExpectLine) := by
-  sorry
+  exact HeaderLemmas.expect_any h0 h ls hne hf
 
 example : Header.tryFrom [0x20, 0x63, 0x4F, 0x4E, 0x54, 0x45, 0x4E, 0x54, 0x2D, 0x6C, 0x65, 0x6E, 0x67, 0x74, 0x68, 0x09]
     = some .contentLength := by decide
